@@ -18,8 +18,9 @@
 (* connection keeps its inode whatever happens to the path afterwards.      *)
 (* SQLite rules (WAL mode): one writer per database, readers never block    *)
 (* and are never blocked, a read transaction sees the snapshot of its       *)
-(* start, a connection whose read snapshot is stale cannot become a writer  *)
-(* ("database is locked" at once), waiting for a writer that is inside a    *)
+(* start, a connection that holds a read transaction cannot wait for the    *)
+(* write lock nor upgrade a stale snapshot ("database is locked" at once),  *)
+(* otherwise waiting for a writer that is inside a                          *)
 (* short critical section always ends (modelled as: the step is not enabled *)
 (* while the lock is held).                                                 *)
 (*                                                                          *)
@@ -28,6 +29,7 @@
 (*      "BootstrapUnderSnapshot" - the bootstrap page is written on the     *)
 (*                                  connection that holds the open cursor   *)
 (*                                  (ideal: written under a fresh snapshot) *)
+(*      "BootcheckNeverHits"     - page_exists(bootstrap) is always false   *)
 EXTENDS Naturals, Sequences, FiniteSets, TLC
 
 CONSTANTS
@@ -38,6 +40,10 @@ CONSTANTS
 
 RestoreRace == "RestoreRaceOnStartup" \in Dev
 BootSnap == "BootstrapUnderSnapshot" \in Dev
+\* code fact (not a violation by itself): the page is stored as "Module:_sandbox_phase1" but
+\* looked up as "Module: sandbox phase1", so the check never finds it and every context
+\* writes the page again on its first Lua use
+BootcheckNeverHits == "BootcheckNeverHits" \in Dev
 
 NIno == 2 + Cardinality(Procs)
 Inodes == 1..NIno
@@ -51,9 +57,12 @@ VARIABLES
   pmain, pbak,   \* inode the path points to, 0 = no such file
   ino,           \* inode -> [c: page tags stored, ver: commit counter, tabs: schema exists, used]
   wlock,         \* inode -> process holding the write lock, 0 = free
-  pc, conn, snap, saw, res
+  pc, conn, snap, saw, res,
+  chk,           \* ghost: what the backup path pointed to when the process checked it
+  raced,         \* ghost: a process restored on the basis of a check that was no longer true
+  snapfail       \* ghost: a bootstrap write failed because of a stale read snapshot
 
-vars == <<scn, pmain, pbak, ino, wlock, pc, conn, snap, saw, res>>
+vars == <<scn, pmain, pbak, ino, wlock, pc, conn, snap, saw, res, chk, raced, snapfail>>
 
 BakPresent == scn.bak
 BootPresent == scn.boot
@@ -73,6 +82,8 @@ Init ==
   /\ snap = [p \in Procs |-> NoSnap]
   /\ saw = [p \in Procs |-> FALSE]
   /\ res = [p \in Procs |-> "-"]
+  /\ chk = [p \in Procs |-> 0]
+  /\ raced = FALSE /\ snapfail = FALSE
 
 FreeIno == CHOOSE i \in Inodes : ~ino[i].used
 View(p) == IF snap[p].on THEN snap[p].c ELSE ino[conn[p]].c
@@ -87,17 +98,20 @@ Exists(p) ==
      ELSE IF RestoreRace THEN Go(p, "unlink") /\ UNCHANGED <<pmain, pbak>>
      ELSE \* ideal: check, unlink and rename are one indivisible step
           Go(p, "connect") /\ pmain' = pbak /\ pbak' = 0
-  /\ UNCHANGED <<ino, wlock, conn, snap, saw, res>>
+  /\ chk' = [chk EXCEPT ![p] = pbak]
+  /\ UNCHANGED <<ino, wlock, conn, snap, saw, res, raced, snapfail>>
 
 Unlink(p) ==
   /\ pc[p] = "unlink" /\ pmain' = 0 /\ Go(p, "rename")
-  /\ UNCHANGED <<pbak, ino, wlock, conn, snap, saw, res>>
+  /\ raced' = (raced \/ pbak # chk[p])
+  /\ UNCHANGED <<pbak, ino, wlock, conn, snap, saw, res, chk, snapfail>>
 
 Rename(p) ==
   /\ pc[p] = "rename"
   /\ IF pbak = 0 THEN Fail(p, "fnf") /\ UNCHANGED <<pmain, pbak>>
      ELSE pmain' = pbak /\ pbak' = 0 /\ Go(p, "connect") /\ res' = res
-  /\ UNCHANGED <<ino, wlock, conn, snap, saw>>
+  /\ raced' = (raced \/ pbak # chk[p])
+  /\ UNCHANGED <<ino, wlock, conn, snap, saw, chk, snapfail>>
 
 Connect(p) ==
   /\ pc[p] = "connect"
@@ -106,15 +120,18 @@ Connect(p) ==
           /\ conn' = [conn EXCEPT ![p] = FreeIno]
      ELSE conn' = [conn EXCEPT ![p] = pmain] /\ UNCHANGED <<pmain, ino>>
   /\ Go(p, "script")
-  /\ UNCHANGED <<pbak, wlock, snap, saw, res>>
+  /\ UNCHANGED <<pbak, wlock, snap, saw, res, chk, raced, snapfail>>
 
-\* CREATE TABLE IF NOT EXISTS ...: a write only on a database that has no schema yet
+\* First access of the connection (CREATE TABLE IF NOT EXISTS ...; PRAGMA ...): SQLite
+\* opens the -shm/-wal files beside the path and refuses ("disk I/O error") when the file
+\* it holds is no longer the one at the path.  A write only on a database without schema.
 Script(p) ==
   /\ pc[p] = "script"
-  /\ IF ino[conn[p]].tabs THEN ino' = ino
-     ELSE wlock[conn[p]] = 0 /\ ino' = [ino EXCEPT ![conn[p]].tabs = TRUE, ![conn[p]].ver = @ + 1]
-  /\ Go(p, IF Cursor THEN "cursor" ELSE "read1")
-  /\ UNCHANGED <<pmain, pbak, wlock, conn, snap, saw, res>>
+  /\ IF pmain # conn[p] THEN Fail(p, "ioerr") /\ ino' = ino
+     ELSE /\ IF ino[conn[p]].tabs THEN ino' = ino
+             ELSE wlock[conn[p]] = 0 /\ ino' = [ino EXCEPT ![conn[p]].tabs = TRUE, ![conn[p]].ver = @ + 1]
+          /\ Go(p, IF Cursor THEN "cursor" ELSE "read1") /\ res' = res
+  /\ UNCHANGED <<pmain, pbak, wlock, conn, snap, saw, chk, raced, snapfail>>
 
 (* ---- page work ---- *)
 \* the iterator over the stored pages stays open (if there is any page to iterate over)
@@ -124,44 +141,51 @@ OpenCursor(p) ==
                                   THEN [on |-> TRUE, c |-> ino[conn[p]].c, ver |-> ino[conn[p]].ver]
                                   ELSE NoSnap]
   /\ Go(p, "read1")
-  /\ UNCHANGED <<pmain, pbak, ino, wlock, conn, saw, res>>
+  /\ UNCHANGED <<pmain, pbak, ino, wlock, conn, saw, res, chk, raced, snapfail>>
 
 Read(p, here, next) ==
   /\ pc[p] = here
   /\ IF Exp \in View(p) THEN Go(p, next) /\ res' = res
      ELSE Fail(p, IF View(p) \ {"boot"} = {} THEN "missing" ELSE "stale")
-  /\ UNCHANGED <<pmain, pbak, ino, wlock, conn, snap, saw>>
+  /\ UNCHANGED <<pmain, pbak, ino, wlock, conn, snap, saw, chk, raced, snapfail>>
 Read1(p) == Read(p, "read1", "bootcheck")
 
+BootFound(p) == "boot" \in View(p) /\ ~BootcheckNeverHits
 Bootcheck(p) ==
   /\ pc[p] = "bootcheck"
-  /\ saw' = [saw EXCEPT ![p] = "boot" \in View(p)]
-  /\ Go(p, IF "boot" \in View(p) THEN "read2" ELSE "insert")
-  /\ UNCHANGED <<pmain, pbak, ino, wlock, conn, snap, res>>
+  /\ saw' = [saw EXCEPT ![p] = BootFound(p)]
+  /\ Go(p, IF BootFound(p) THEN "read2" ELSE "insert")
+  /\ UNCHANGED <<pmain, pbak, ino, wlock, conn, snap, res, chk, raced, snapfail>>
 
+\* A connection that holds a read transaction (the open cursor) cannot wait for the write
+\* lock (SQLite does not run the busy handler then) and cannot upgrade a stale snapshot:
+\* "database is locked" at once in both cases.
+InsertFails(p) == BootSnap /\ snap[p].on /\ (snap[p].ver # ino[conn[p]].ver \/ wlock[conn[p]] # 0)
 Insert(p) ==
   /\ pc[p] = "insert"
-  /\ wlock[conn[p]] = 0                       \* otherwise the busy handler waits
-  /\ IF BootSnap /\ snap[p].on /\ snap[p].ver # ino[conn[p]].ver
-     THEN Fail(p, "locked") /\ wlock' = wlock  \* stale read snapshot cannot be upgraded
-     ELSE wlock' = [wlock EXCEPT ![conn[p]] = p] /\ Go(p, "commit") /\ res' = res
-  /\ UNCHANGED <<pmain, pbak, ino, conn, snap, saw>>
+  /\ IF InsertFails(p)
+     THEN Fail(p, "locked") /\ wlock' = wlock /\ snapfail' = TRUE
+     ELSE /\ wlock[conn[p]] = 0                  \* otherwise the busy handler waits
+          /\ wlock' = [wlock EXCEPT ![conn[p]] = p] /\ Go(p, "commit") /\ res' = res /\ snapfail' = snapfail
+  /\ UNCHANGED <<pmain, pbak, ino, conn, snap, saw, chk, raced>>
 
+\* an upsert that stores what is stored already writes nothing: no new version
 Commit(p) ==
   /\ pc[p] = "commit"
-  /\ ino' = [ino EXCEPT ![conn[p]].c = @ \cup {"boot"}, ![conn[p]].ver = @ + 1]
+  /\ ino' = [ino EXCEPT ![conn[p]].c = @ \cup {"boot"},
+                        ![conn[p]].ver = IF "boot" \in ino[conn[p]].c THEN @ ELSE @ + 1]
   /\ wlock' = [wlock EXCEPT ![conn[p]] = 0]
   /\ snap' = [snap EXCEPT ![p] = IF snap[p].on
                                   THEN [on |-> TRUE, c |-> ino'[conn[p]].c, ver |-> ino'[conn[p]].ver]
                                   ELSE NoSnap]
   /\ Go(p, "read2")
-  /\ UNCHANGED <<pmain, pbak, conn, saw, res>>
+  /\ UNCHANGED <<pmain, pbak, conn, saw, res, chk, raced, snapfail>>
 
 Read2(p) ==
   /\ pc[p] = "read2"
   /\ IF Exp \in View(p) THEN Go(p, "done") /\ res' = [res EXCEPT ![p] = "ok"]
      ELSE Fail(p, IF View(p) \ {"boot"} = {} THEN "missing" ELSE "stale")
-  /\ UNCHANGED <<pmain, pbak, ino, wlock, conn, snap, saw>>
+  /\ UNCHANGED <<pmain, pbak, ino, wlock, conn, snap, saw, chk, raced, snapfail>>
 
 Step(p) == Exists(p) \/ Unlink(p) \/ Rename(p) \/ Connect(p) \/ Script(p) \/ OpenCursor(p)
            \/ Read1(p) \/ Bootcheck(p) \/ Insert(p) \/ Commit(p) \/ Read2(p)
